@@ -104,7 +104,10 @@ def check(rep, model, tier):
         if lab is None:
             rep.violation('EMPTY-EPOCH', det, dsite, expected='a table with an is_burst column', found=T.brief(r, 160) if r else 'no value returned')
             continue
-        unguarded = [s for a in T.walk(lab) if a[0] == 'arr' for s in a[2]
+        # the label term specialised to a table without rows (nrows(S) := 0, conditions and guards re-evaluated): whatever element store at a constant index is
+        # still performed then is performed on an empty array
+        lab0 = T.subst(lab, lambda y: C(0) if y == ('nrows', 'S') else None)
+        unguarded = [s for a in T.walk(lab0) if a[0] == 'arr' for s in a[2]
                      if T.isconst(s[0]) and isinstance(s[0][1], int) and not any(x[0] in ('nrows', 'len') for x in T.walk(s[2]))]
         if unguarded:
             rep.violation('EMPTY-EPOCH', det, dsite, expected='element stores guarded by a length test (an epoch may contain no cycle)',
